@@ -2,6 +2,7 @@
   Regenerated tie for C20: what `tools/extract` read from /repo/daemon/daemon.go satisfies the
   ordering facts `launch_ok` rests on.  Re-proved by `decide` on every run.
 -/
+import Glb.Generated.StatusDaemon
 import Glb.Proofs.Daemon
 
 namespace Glb.Tie.Daemon
@@ -46,5 +47,8 @@ theorem caller_reads_after_run :
 
 /-- the launcher reports a failed start and a failed wait on stderr -/
 theorem launcher_reports_on_stderr : "launch" ∈ launchStderr ∧ "waiter" ∈ launchStderr := by decide
+
+/-- the extractor of this area recognised the source as it is on this run (a refusal removes `ok`) -/
+theorem extractor_ok : Glb.Generated.StatusDaemon.ok = () := rfl
 
 end Glb.Tie.Daemon
